@@ -290,8 +290,11 @@ class Check:
         ev = {"property_id": self.id, "tier": self.tier, "seed": self.seed, "level": self.cfg.get("level", "proof"),
               "coverage": cov, "assumptions": self.cfg.get("assumptions", []),
               "wall_s": round(time.time() - self.t0, 2), "violations": violations}
-        os.makedirs(os.path.join(VERIF, "evidence"), exist_ok=True)
-        with open(os.path.join(VERIF, "evidence", self.id + ".json"), "w") as f:
+        # evidence describes /repo; a run against another tree (VERIF_REPO, used to try seeded changes and
+        # candidate repairs) leaves the committed evidence alone and writes beside it
+        evdir = "evidence" if REPO == "/repo" else "evidence-scratch"
+        os.makedirs(os.path.join(VERIF, evdir), exist_ok=True)
+        with open(os.path.join(VERIF, evdir, self.id + ".json"), "w") as f:
             json.dump(ev, f, indent=1)
 
     def coqchk(self):
